@@ -42,7 +42,9 @@ func plan(tier string, seed int64) []sup.Batch {
 	nCons, consSections := 480, 240
 	nLin := 6000
 	nSvc := 2400
+	nDesc := 960
 	if tier == "thorough" {
+		nDesc = 16000
 		exhLen, nOvl, ovlOps, ovlDepth = 4, 60000, 80, 6
 		nCons, consSections = 6000, 400
 		nLin = 90000
@@ -54,6 +56,7 @@ func plan(tier string, seed int64) []sup.Batch {
 	bs = append(bs, chunkProcs("cons", "cons", nCons, 16, procsCycle, map[string]any{"sections": consSections})...)
 	bs = append(bs, chunkProcs("lin", "lin", nLin, 16, procsCycle, nil)...)
 	bs = append(bs, chunkProcs("svc", "svc", nSvc, 8, func(i int) int { return []int{4, 8, 2, 16, 4, 8, 2, 8}[i%8] }, nil)...)
+	bs = append(bs, chunkProcs("desc", "desc", nDesc, 8, func(i int) int { return []int{4, 2, 16, 8, 4, 2, 16, 8}[i%8] }, nil)...)
 	nexh := exhCount(exhLen) * exhFlavours
 	bs = append(bs, chunkProcs("exh", "exh", nexh, 8, one, map[string]any{"len": exhLen})...)
 	bs = append(bs, chunkProcs("ovl", "ovl", nOvl, 16, one, map[string]any{"ops": ovlOps, "depth": ovlDepth})...)
@@ -69,11 +72,12 @@ func main() {
 			"ovl: seeded random histories of SetValue/Value/Keys/LockData…(nested LockData)…Commit on scope trees (≤ 6 scopes, depth ≤ 4 quick / 6 thorough, mixed key types, nil values, pre-filled maps), same model; " +
 			"cons: G=2…32 goroutines run locked increment / transfer / audit sections against plain readers, writers, empty lockers and Keys callers on one scope – final counter = sections, values read = {0…n-1}, one holder at a time, nothing foreign becomes visible inside a section; " +
 			"lin: porcupine over recorded mixed histories (get, set, rmw spanning LockData→Commit, locked double read) per key; " +
+			"desc: locked sections (sentinel written and restored before Commit) on a scope while readers go through plain Value and LockData on descendants 1…4 levels below that do not hold the key – nobody may observe the sentinel; " +
 			"svc: get-or-create services from 2…32 goroutines on a fresh scope return one instance. distinct = distinct histories / recorded interleavings; non-trivial = at least one write (exh/ovl), at least two sections that overlapped in time (cons/lin), at least two overlapping calls (svc)",
 		Assumptions: []string{
 			"a nil value stored with SetValue counts as the scope's own value (it hides the parent's value), as tasks.Unit.Clear relies on",
 			"Keys is not mentioned by the statement: only 'lists every key the scope itself holds, nothing that is absent from the whole chain, no duplicates' is checked",
-			"the exclusion promise is per scope: in the concurrent workloads every ancestor of the scope under test is static, so a child read that misses and continues in the parent (two steps, two mutexes) is not judged for atomicity across scopes",
+			"atomicity of one read across two scopes (a miss in the child followed by a read of the parent) is not judged; a read that reaches a locked scope through its descendants must still wait for the Commit (desc batches)",
 			"use of a locker after Commit, a second Commit, and touching the locked scope directly from the goroutine that holds its lock are misuse and not exercised",
 			"interleavings are the ones the Go scheduler produced under GOMAXPROCS 1/2/4/16 with yields inside the sections; a clean race-detector run is not race freedom",
 		},
@@ -90,6 +94,8 @@ func main() {
 				runLin(c, b)
 			case "svc":
 				runSvc(c, b)
+			case "desc":
+				runDesc(c, b)
 			}
 		},
 		Finish: func(t *sup.Totals) string {
@@ -97,7 +103,7 @@ func main() {
 				"exh_histories", "ovl_steps", "ovl_locked_steps", "ovl_parent_fallthrough_reads",
 				"cons_sections", "cons_sections_with_waiters", "cons_plain_ops",
 				"lin_histories_checked", "lin_histories_with_overlap", "porcupine_ok",
-				"svc_rounds", "svc_rounds_with_overlap",
+				"svc_rounds", "svc_rounds_with_overlap", "desc_sections", "desc_reads_two_or_more_levels_below",
 			}
 			for _, k := range need {
 				if t.Obs[k] == 0 {
